@@ -394,7 +394,7 @@ def main_check(prop: str, tier: str) -> int:
                     return rr["status"] == "violation" and fmod.classify(prop, c, rr["violations"], findings) is None
                 except Exception:
                     return False
-            small = shrink(mod, drv, case, still) if hasattr(mod, "SHRINK") else case
+            small = shrink(mod, drv, case, still) if getattr(mod, "SHRINK", False) else case
             rr = run_one(mod, drv, small)
             if rr["status"] != "violation":
                 small, rr = case, r
